@@ -221,7 +221,7 @@ func (s c18Suite) Gen(rng *Rng, tier string, w *bufio.Writer, stats *Stats) {
 	}
 	caseNo := 0
 	for d := 0; d < nDB; d++ {
-		bigInts := s.obs && d%6 == 5
+		bigInts := d%6 == 5 // int64 beyond 2^53 round-trip exactly since the UseNumber fix
 		graphs := genGraphs(rng, bigInts, stats)
 		var counts []int
 		for _, g := range graphs {
